@@ -444,6 +444,80 @@ theorem fields_pack (s e f : Nat) (hs : s < 2) (he : e < 2048) (hf : f < 2 ^ 52)
   unfold f64Pack f64Sign f64Exponent f64Fraction
   refine ⟨by omega, by omega, by omega, by omega⟩
 
+/-! ### `CVD` hands over finite numbers only (since 181b08f) -/
+
+/-- **CVD succeeds iff the 8 bytes encode a finite number** (exponent field not all ones), and then it
+answers the pattern the bytes spell. -/
+theorem cvd_some_iff (bs : List Nat) (w : Nat) :
+    cvd bs = some w ↔ f64Exponent (bytesToF64 bs) ≠ 2047 ∧ w = bytesToF64 bs := by
+  unfold cvd f64IsFinite
+  by_cases h : f64Exponent (bytesToF64 bs) = 2047
+  · rw [h]
+    constructor
+    · intro h'; cases h'
+    · intro h'; exact absurd rfl h'.1
+  · have hb : (f64Exponent (bytesToF64 bs) != 2047) = true := by
+      rw [bne_iff_ne]; exact h
+    rw [if_pos hb]
+    constructor
+    · intro h'; cases h'; exact ⟨h, rfl⟩
+    · intro h'; rw [h'.2]
+
+/-- **Overflow otherwise**: `CVD` raises Overflow exactly on the infinities and the NaNs. -/
+theorem cvd_overflow_iff (bs : List Nat) : cvd bs = none ↔ f64Exponent (bytesToF64 bs) = 2047 := by
+  unfold cvd f64IsFinite
+  by_cases h : f64Exponent (bytesToF64 bs) = 2047
+  · rw [h]; exact ⟨fun _ => rfl, fun _ => rfl⟩
+  · have hb : (f64Exponent (bytesToF64 bs) != 2047) = true := by
+      rw [bne_iff_ne]; exact h
+    rw [if_pos hb]
+    exact ⟨fun h' => (by cases h'), fun h' => absurd h' h⟩
+
+/-- The exponent field all ones is: an infinity (fraction 0) or a NaN (any other fraction) — the
+patterns `s * 2^63 + 2047 * 2^52 + f`. -/
+theorem nonfinite_patterns (w : Nat) (h : w < 2 ^ 64) :
+    f64Exponent w = 2047 ↔ ∃ s f, s < 2 ∧ f < 2 ^ 52 ∧ w = f64Pack s 2047 f := by
+  constructor
+  · intro he
+    refine ⟨f64Sign w, f64Fraction w, ?_, ?_, ?_⟩
+    · unfold f64Sign; omega
+    · unfold f64Fraction; omega
+    · have := pack_fields w h; rw [he] at this; exact this.symm
+  · rintro ⟨s, f, hs, hf, rfl⟩
+    exact (fields_pack s 2047 f hs (by omega) hf).2.2.1
+
+/-- **`MKD$(CVD(s)) = s`** for every string of 8 bytes that encodes a finite number (when `CVD`
+answers at all, re-encoding gives the string back). -/
+theorem mkd_cvd (bs : List Nat) (hlen : bs.length = 8) (hb : ∀ b ∈ bs, b < 256) (w : Nat)
+    (h : cvd bs = some w) : f64ToBytes w = bs ∧ w < 2 ^ 64 ∧ f64Exponent w ≠ 2047 := by
+  obtain ⟨hfin, rfl⟩ := (cvd_some_iff bs w).1 h
+  exact ⟨(split_join bs hlen hb).1, (split_join bs hlen hb).2, hfin⟩
+
+/-- **`CVD(MKD$(x)) = x` for every finite double** (every pattern whose exponent field is not all
+ones: normal, subnormal, ±0) … -/
+theorem cvd_mkd (w : Nat) (h : w < 2 ^ 64) (hfin : f64Exponent w ≠ 2047) : cvd (f64ToBytes w) = some w := by
+  rw [cvd_some_iff, join_split w h]; exact ⟨hfin, rfl⟩
+
+/-- … and Overflow for the 8 bytes `MKD$` makes of an infinity or a NaN. -/
+theorem cvd_mkd_nonfinite (w : Nat) (h : w < 2 ^ 64) (hinf : f64Exponent w = 2047) :
+    cvd (f64ToBytes w) = none := by
+  rw [cvd_overflow_iff, join_split w h]; exact hinf
+
+/-- Whether `CVD` answers is decided by the last two bytes of the string (the exponent field sits in
+the low 7 bits of byte 7 and the high 4 bits of byte 6). -/
+theorem cvd_decided_by_last_bytes (w : Nat) (h : w < 2 ^ 64) :
+    cvd (f64ToBytes w) = none ↔ (w / 256 ^ 7 % 256) % 128 = 127 ∧ (w / 256 ^ 6 % 256) / 16 = 15 := by
+  rw [cvd_overflow_iff, join_split w h]
+  unfold f64Exponent
+  omega
+
+/-- 2.0 and the largest finite double are answered; +infinity, −infinity and two NaNs are Overflow. -/
+example : cvd [0, 0, 0, 0, 0, 0, 0, 64] = some 0x4000000000000000 ∧
+    cvd [255, 255, 255, 255, 255, 255, 239, 127] = some 0x7FEFFFFFFFFFFFFF ∧
+    cvd [0, 0, 0, 0, 0, 0, 240, 127] = none ∧ cvd [0, 0, 0, 0, 0, 0, 240, 255] = none ∧
+    cvd [255, 255, 255, 255, 255, 255, 255, 255] = none ∧ cvd [1, 0, 0, 0, 0, 0, 240, 127] = none := by
+  decide
+
 /-- where the fields sit in the string: the sign is the top bit of the last byte, the exponent its
 other seven bits and the top four bits of the byte before, the fraction everything below. -/
 theorem fields_in_bytes (w : Nat) (h : w < 2 ^ 64) :
